@@ -156,6 +156,26 @@ Proof.
   destruct (A x), (B x); cbn [vmul vlift2 vmap vmap2]; try reflexivity. rewrite E. reflexivity.
 Qed.
 
+(* the weighted sum of the centred product: sum w (u - muf)(v - mug) = sum w u v - muf mug T *)
+Lemma centred_sum (muf mug : Qc) :
+  piece_integral (fin_pieces lf) = muf * piece_total (fin_pieces lf) ->
+  piece_integral (fin_pieces lg) = mug * piece_total (fin_pieces lf) ->
+  R A B (fun u v => (u - muf) * (v - mug)) P =
+  piece_integral (fin_pieces lp) - muf * mug * piece_total (fin_pieces lf).
+Proof.
+  intros Ma Mb.
+  assert (E0 : piece_total (fin_pieces lf) = R A B (fun _ _ => 1) P) by (rewrite total_as_wsum; apply (sum_f (fun _ => 1))).
+  assert (ESa : piece_integral (fin_pieces lf) = R A B (fun u _ => u) P) by apply (sum_f (fun u => u)).
+  assert (ESb : piece_integral (fin_pieces lg) = R A B (fun _ v => v) P) by apply (sum_g (fun v => v)).
+  assert (ESab : piece_integral (fin_pieces lp) = R A B (fun u v => u * v) P) by (apply (sum_p (fun u v => u * v) (fun w => w)); reflexivity).
+  rewrite (R_ext A B _ (fun u v => 1 * (u * v) + (- muf) * (1 * v + 0 * u + 0 * 1) + (- mug) * (1 * u + (- muf) * 1 + 0 * 1)) P)
+    by (intros u v; ring).
+  rewrite (R_lin3 A B 1 (- muf) (- mug) (fun u v => u * v) (fun u v => 1 * v + 0 * u + 0 * 1) (fun u v => 1 * u + (- muf) * 1 + 0 * 1) P).
+  rewrite (R_lin3 A B 1 0 0 (fun _ v => v) (fun u _ => u) (fun _ _ => 1) P).
+  rewrite (R_lin3 A B 1 (- muf) 0 (fun u _ => u) (fun _ _ => 1) (fun _ _ => 1) P).
+  rewrite <- ESab, <- ESa, <- ESb, <- E0. rewrite Ma, Mb. ring.
+Qed.
+
 Theorem moments_cauchy_schwarz :
   let T := piece_total (fin_pieces lf) in
   let muf := piece_integral (fin_pieces lf) / T in
@@ -223,77 +243,3 @@ Proof. unfold both_defined. destruct x, y; cbn; split; congruence. Qed.
 Lemma lookup_is_lim (c : stairsQ) x : init c = None -> lookup false None (get_values c) x = lim LimRight c x.
 Proof. intros E. unfold lim. rewrite E. reflexivity. Qed.
 
-Theorem corr_bounded (f g : stairsQ) (a b : Qc) lc (r : Qc) : wf f -> wf g ->
-  corr_signed_square f g (Some a) (Some b) 0 lc = Ok (Some r) -> - (1) <= r /\ r <= 1.
-Proof.
-  intros Wf Wg. unfold corr_signed_square. change (Qceqb 0 0) with true. cbv iota.
-  destruct (negb (closed_ok f g)); [discriminate|].
-  destruct (cov_operands f g (Some a) (Some b) 0 lc) as [[[f1 g1] h]|e] eqn:Eo; [|discriminate]. cbn [lift_res].
-  destruct (cov_operands_spec f g f1 g1 (Some a) (Some b) lc h Wf Wg Eo) as (-> & Wf1 & Wg1 & L).
-  unfold clipped_var.
-  destruct (clip f1 (Some a) (Some b)) as [cf|e] eqn:Ecf; [|discriminate]. cbn [lift_res].
-  destruct (ecdf_of cf) as [ecf|] eqn:Eef; [|discriminate]. cbn [lift_res].
-  destruct (clip g1 (Some a) (Some b)) as [cg|e] eqn:Ecg; [|discriminate]. cbn [lift_res].
-  destruct (ecdf_of cg) as [ecg|] eqn:Eeg; [|discriminate]. cbn [lift_res].
-  destruct (clip_spec f1 cf (Some a) (Some b) Wf1 Ecf) as (Wcf & _ & Lcf).
-  destruct (clip_spec g1 cg (Some a) (Some b) Wg1 Ecg) as (Wcg & _ & Lcg).
-  destruct (var_about_the_mean cf ecf Wcf Eef) as (HTf & IMf & Hvf). cbv zeta in HTf, IMf, Hvf.
-  destruct (var_about_the_mean cg ecg Wcg Eeg) as (HTg & IMg & Hvg). cbv zeta in HTg, IMg, Hvg.
-  rewrite Hvf, Hvg. cbn [vmul vlift2].
-  set (lf := get_values cf) in *. set (lg := get_values cg) in *.
-  set (d := piece_sqdev (piece_integral (fin_pieces lf) / piece_total (fin_pieces lf)) (fin_pieces lf) / piece_total (fin_pieces lf) *
-            (piece_sqdev (piece_integral (fin_pieces lg) / piece_total (fin_pieces lg)) (fin_pieces lg) / piece_total (fin_pieces lg))).
-  destruct (Qceqb d 0) eqn:Ed0; [intros E; discriminate E|].
-  assert (Dne : d <> 0) by (intros E; rewrite E in Ed0; discriminate Ed0).
-  unfold cov_masked.
-  destruct (binop_api (BArith OMul) (OpS f1) (OpS g1)) as [p|e] eqn:Ep; [|discriminate]. cbn [lift_res].
-  destruct (binop_api_ok (BArith OMul) (OpS f1) (OpS g1) p Wf1 Wg1 Ep) as [Wp Lp].
-  unfold clipped_mean. rewrite Ecf, Ecg.
-  destruct (clip p (Some a) (Some b)) as [cp|e] eqn:Ecp; [|discriminate]. cbn [lift_res].
-  destruct (clip_spec p cp (Some a) (Some b) Wp Ecp) as (Wcp & _ & Lcp).
-  set (lp := get_values cp) in *.
-  destruct (clip_window_shape f1 cf a b Ecf) as [Icf Tcf]. destruct (clip_window_shape g1 cg a b Ecg) as [Icg Tcg].
-  destruct (clip_window_shape p cp a b Ecp) as [Icp Tcp]. fold lf in Tcf. fold lg in Tcg. fold lp in Tcp.
-  (* pointwise facts *)
-  assert (LA : forall x, lookup false None lf x = if inside false (Some a) (Some b) x then (if both_defined (lim LimRight f x) (lim LimRight g x) then lim LimRight f x else None) else None).
-  { intros x. unfold lf. rewrite (lookup_is_lim cf x Icf), Lcf. cbn [strict_of]. destruct (inside false (Some a) (Some b) x); [|reflexivity]. apply (proj1 (L LimRight x)). }
-  assert (LB : forall x, lookup false None lg x = if inside false (Some a) (Some b) x then (if both_defined (lim LimRight f x) (lim LimRight g x) then lim LimRight g x else None) else None).
-  { intros x. unfold lg. rewrite (lookup_is_lim cg x Icg), Lcg. cbn [strict_of]. destruct (inside false (Some a) (Some b) x); [|reflexivity]. apply (proj2 (L LimRight x)). }
-  assert (Dfg : forall x, lookup false None lf x = None <-> lookup false None lg x = None).
-  { intros x. rewrite LA, LB. destruct (inside false (Some a) (Some b) x); [apply both_defined_none|tauto]. }
-  assert (Hprod : forall x, lookup false None lp x = vmul (lookup false None lf x) (lookup false None lg x)).
-  { intros x. rewrite LA, LB. unfold lp. rewrite (lookup_is_lim cp x Icp), Lcp. cbn [strict_of].
-    destruct (inside false (Some a) (Some b) x); [|reflexivity]. rewrite Lp. cbn [olim vbin varith].
-    rewrite (proj1 (L LimRight x)), (proj2 (L LimRight x)). reflexivity. }
-  set (P := usort (keys lf ++ keys lg ++ keys lp)).
-  destruct (usort_spec (keys lf ++ keys lg ++ keys lp)) as [HP HinP]. fold P in HP, HinP.
-  assert (If_ : incl (keys lf) P) by (intros x Hx; apply HinP; apply in_or_app; left; exact Hx).
-  assert (Ig_ : incl (keys lg) P) by (intros x Hx; apply HinP; apply in_or_app; right; apply in_or_app; left; exact Hx).
-  assert (Ip_ : incl (keys lp) P) by (intros x Hx; apply HinP; apply in_or_app; right; apply in_or_app; right; exact Hx).
-  pose proof (wf_sorted_values cf Wcf) as Sf. pose proof (wf_sorted_values cg Wcg) as Sg. pose proof (wf_sorted_values cp Wcp) as Sp.
-  fold lf in Sf. fold lg in Sg. fold lp in Sp.
-  assert (Tgf : piece_total (fin_pieces lg) = piece_total (fin_pieces lf)).
-  { (* the totals agree before d is unfolded: use the theorem with any non-zero product *)
-    rewrite !total_as_wsum.
-    rewrite (sum_g lf lg P Sg Tcg HP Ig_ Dfg (fun _ => 1)), (sum_f lf lg P Sf Tcf HP If_ Dfg (fun _ => 1)). reflexivity. }
-  assert (Dd : d = piece_sqdev (piece_integral (fin_pieces lf) / piece_total (fin_pieces lf)) (fin_pieces lf) / piece_total (fin_pieces lf) *
-                   (piece_sqdev (piece_integral (fin_pieces lg) / piece_total (fin_pieces lf)) (fin_pieces lg) / piece_total (fin_pieces lf))).
-  { unfold d. rewrite Tgf. reflexivity. }
-  assert (Hd' : piece_sqdev (piece_integral (fin_pieces lf) / piece_total (fin_pieces lf)) (fin_pieces lf) / piece_total (fin_pieces lf) *
-                (piece_sqdev (piece_integral (fin_pieces lg) / piece_total (fin_pieces lf)) (fin_pieces lg) / piece_total (fin_pieces lf)) <> 0)
-    by (rewrite <- Dd; exact Dne).
-  destruct (moments_cauchy_schwarz lf lg lp P Sf Sg Sp Tcf Tcg Tcp HP If_ Ig_ Ip_ Dfg Hprod HTf Hd') as (_ & Tpf & CS & Dpos).
-  cbv zeta in CS, Dpos. rewrite <- Dd in CS, Dpos.
-  (* integral and mean of the clipped product *)
-  assert (Tne : piece_total (fin_pieces lf) <> 0) by (intros E; rewrite E in HTf; discriminate HTf).
-  assert (IMp : integral_and_mean cp = (Some (piece_integral (fin_pieces lp)), Some (piece_integral (fin_pieces lp) / piece_total (fin_pieces lf)))).
-  { assert (Hlen : (2 <= length (get_values cp))%nat).
-    { fold lp. destruct lp as [|[k1 w1] [|r2 rest]] eqn:Eg; cbn [length]; try lia; exfalso; apply Tne; rewrite <- Tpf; reflexivity. }
-    destruct (data cp) as [fr|] eqn:Dcp.
-    - rewrite (integral_mean_spec cp fr Dcp Hlen). fold lp. rewrite Tpf. f_equal. unfold vdiv.
-      destruct (Qceqb (piece_total (fin_pieces lf)) 0) eqn:E0; [apply Qc_eq_bool_correct in E0; congruence|reflexivity].
-    - exfalso. unfold get_values in Hlen. rewrite Dcp in Hlen. cbn in Hlen. lia. }
-  rewrite IMp, IMf, IMg. cbn [snd vsub vmul vlift2]. fold lf lg. rewrite Tgf.
-  intros E. injection E as <-.
-  apply signed_square_bounded; [exact CS|exact Dpos].
-Qed.
